@@ -120,7 +120,7 @@ def note_tuple(x):
 
 def check(ctx, case):
     if case["kind"] == "grid":
-        ctx.begin(case)
+        ctx.begin(case, nontrivial=False)
         ctx.evaluations -= 1
         for code in range(case["c0"], case["c1"]):
             notes = grid_stream(code, case["rows"])
